@@ -72,6 +72,12 @@ impl Server {
     /// Spawns the RPC server task and returns the server handle.
     pub async fn listen(addr: SocketAddr) -> io::Result<Self> {
         let state = ServerState::default();
+        #[cfg(datacake_verif)]
+        if crate::verif::in_process() {
+            crate::verif::register(addr, state.clone());
+            let handle = tokio::spawn(std::future::pending::<()>());
+            return Ok(Self { state, handle });
+        }
         let handle = crate::net::start_rpc_server(addr, state.clone()).await?;
 
         Ok(Self { state, handle })
